@@ -218,6 +218,8 @@ pub fn check_silence(
     let cause = |wside: u8, t: Us| -> &'static str {
         if !view.conns.is_empty() && crate::mon::diag::sender_in_zero_window_backoff(view, 0, wside == 0, t) {
             " cause=sender-in-timeout-backoff-after-zero-window"
+        } else if !view.conns.is_empty() && crate::mon::diag::silence_ended_by_segment_larger_than_window(view, 0, wside == 0, t) {
+            " cause=unsent-segment-cut-for-a-larger-window"
         } else {
             ""
         }
